@@ -104,8 +104,11 @@ pub fn set_timers_elsewhere(v: bool) {
 pub fn timers_made_elsewhere() -> u64 {
     MADE_ELSEWHERE.with(|e| e.get())
 }
+/// helper threads per run: enough to cover every timer of an ordinary program, bounded so that the very large programs of
+/// the thorough tier do not spend their time creating threads
+const MAX_ELSEWHERE: u64 = 256;
 fn sleep(d: Duration) -> Sleep {
-    if ELSEWHERE.with(|e| e.get()) {
+    if ELSEWHERE.with(|e| e.get()) && timers_made_elsewhere() < MAX_ELSEWHERE {
         MADE_ELSEWHERE.with(|e| e.set(e.get() + 1));
         std::thread::scope(|s| s.spawn(move || des::time::sleep(d)).join()).expect("helper thread")
     } else {
@@ -113,7 +116,7 @@ fn sleep(d: Duration) -> Sleep {
     }
 }
 fn sleep_until(t: SimTime) -> Sleep {
-    if ELSEWHERE.with(|e| e.get()) {
+    if ELSEWHERE.with(|e| e.get()) && timers_made_elsewhere() < MAX_ELSEWHERE {
         MADE_ELSEWHERE.with(|e| e.set(e.get() + 1));
         std::thread::scope(|s| s.spawn(move || des::time::sleep_until(t)).join()).expect("helper thread")
     } else {
